@@ -135,8 +135,12 @@ def build(ns, kind_i, is_action, V, two=False):
     else:
         name, mk = COND_KINDS[kind_i]
         conds = [mk(V)]
-        if two:
+        if two == "dup2":
+            conds.append(mk(V))  # the same condition twice
+        elif two:
             conds.append(("X-Other", ":contains", "z"))
+            if two == "dup":
+                conds.append(mk(V))  # ... and a last condition equal to the first
         acts = [("keep",)]
     fs.addfilter("f", conds, acts, "allof" if two else "anyof")
     return fs
@@ -210,7 +214,7 @@ def kind_task(t):
         bshape = bstrings = None
         btext = "%s: %s" % (type(e).__name__, e)
     for V in vals:
-        for two in ((False, True) if not is_action and V in ("a", 'a"; discard; #') else (False,)):
+        for two in ((False, True, "dup", "dup2") if not is_action and V in ("a", 'a"; discard; #') else (False,)):
             n += 1
             bad = None
             text = None
